@@ -50,3 +50,48 @@ Print Assumptions safe_join_beneath.
 Print Assumptions safe_join_rejects_dotdot.
 Print Assumptions safe_join_rejects.
 Print Assumptions loader_confined.
+
+(* ---- names computed inside templates (include / import / from-import / extends) ---- *)
+
+(* Without a path-join callback the computed name is handed to the environment - and so to the
+   loader - verbatim. *)
+Theorem names_from_templates_unchanged : forall e parent name, path_join e = None ->
+  state_get_template e parent name = env_get_template e name /\
+  extends_lookup e parent (Some name) = env_get_template e name.
+Proof. exact names_unchanged_proof. Qed.
+
+(* With a callback it is exactly the callback's result for (name, referring template). *)
+Theorem names_from_templates_joined : forall e parent name cb, path_join e = Some cb ->
+  state_get_template e parent name = env_get_template e (cb name parent) /\
+  extends_lookup e parent (Some name) = env_get_template e (cb name parent).
+Proof. exact names_joined_proof. Qed.
+
+(* The loader is asked at most once per lookup, with exactly that name, and only when the store
+   does not already hold a template under it. *)
+Theorem loader_asked_with_joined_name : forall e parent name r asked,
+  state_get_template e parent name = (r, asked) ->
+  (asked = [] \/ asked = [join_template_path e name parent]) /\
+  (asked <> [] -> stored e (join_template_path e name parent) = None).
+Proof. exact loader_asked_proof. Qed.
+
+(* An include over several choices asks the loader only for joined forms of its choices. *)
+Theorem include_asks_joined_names : forall e parent choices r asked,
+  include_lookup e parent choices = (r, asked) ->
+  Forall (fun a => exists name, In (Some name) choices /\ a = join_template_path e name parent) asked.
+Proof. exact include_asks_joined_proof. Qed.
+
+(* End to end in the model: with the path loader installed, for EVERY join callback (or none),
+   every referring template and every computed name, a source obtained through an include that
+   was not registered by the host is the content of a file beneath the base directory. *)
+Theorem include_confined : forall cwd read dir e parent choices s asked,
+  loader e = Some (path_loader read dir) -> (forall n, stored e n = None) ->
+  include_lookup e parent choices = (Found s, asked) ->
+  exists name p, In (Some name) choices /\
+    safe_join dir (join_template_path e name parent) = Some p /\ read p = ReadOk s /\ beneath cwd dir p = true.
+Proof. exact include_confined_proof. Qed.
+
+Print Assumptions names_from_templates_unchanged.
+Print Assumptions names_from_templates_joined.
+Print Assumptions loader_asked_with_joined_name.
+Print Assumptions include_asks_joined_names.
+Print Assumptions include_confined.
